@@ -126,7 +126,14 @@ func report(P *Prog, prop, tier string, results []*FuncResult, kf *KnownFile, ve
 		if v.o != nil {
 			name = v.o.Name
 			fmt.Fprintf(&b, "obligation: %s\nkind: %s\nsource: %s\nclause: %s\nstatus: %s\nsolver: %s\ndetail: %s\n", v.o.Name, v.o.Kind, v.o.Pos, v.o.Src, v.o.Status, v.o.Solver, v.o.Detail)
-			if v.o.Model != "" {
+			if v.r != nil && strings.HasPrefix(v.r.Key, "nfstypes.") {
+				if rp, ok := replayXDR(P, v.r); ok {
+					fmt.Fprintf(&b, "\nreplay on the real code:\n%s\n", rp)
+					suffix = ""
+				} else if rp != "" {
+					fmt.Fprintf(&b, "\nreplay on the real code not confirmed:\n%s\n", rp)
+				}
+			} else if v.o.Model != "" {
 				fmt.Fprintf(&b, "counterexample (solver model of the function inputs):\n%s\n", modelSummary(v.o))
 				if rp, ok := tryReplay(P, v.r, v.o); ok {
 					fmt.Fprintf(&b, "\nreplay on the real code:\n%s\n", rp)
